@@ -170,30 +170,7 @@ func runC17(c *Ctx) {
 	c.R.Floor(rule, cfg, len(pairs), 9)
 	ruleShapePairs(c, p, rule, pairs, false)
 
-	// ---- C17.gates
-	rule = "C17.gates"
-	c.R.Rule(rule, "provenance of gates: in every message encoder/decoder (and the library helpers they call statically), the revision operand of every Feature.In is the function's own revision parameter - never a value taken from the message being decoded (such as the peer's advertised revision) or a constant")
-	nG := 0
-	for _, mp := range pairs {
-		for _, root := range []*ssa.Function{mp.enc, mp.dec} {
-			for fn := range core.StaticReach(root, 2) {
-				if !core.IsLib(pkgOf(fn)) || pkgOf(fn).Path() != core.PkgProto {
-					continue
-				}
-				for _, call := range core.FindCalls(fn, isFeatureIn) {
-					nG++
-					arg := call.Common().Args[1]
-					key := "gate/" + mp.name + "/" + core.CallKey(fn, call)
-					if _, ok := arg.(*ssa.Parameter); ok && (fn == root || paramFedByParam(root, fn, arg.(*ssa.Parameter))) {
-						c.R.Ok(rule, key, cfg, p.Pos(call.Pos()), "gated on the revision parameter")
-					} else {
-						c.R.Bad(rule, key, cfg, p.Pos(call.Pos()), "gate is evaluated on "+orDash(core.FieldOrigin(arg, 0), arg)+" instead of the negotiated revision parameter: encoder and decoder disagree whenever that value and the negotiated revision lie on different sides of the threshold")
-					}
-				}
-			}
-		}
-	}
-	c.R.Count("gates in message codecs", nG)
+	ruleGates(c, p, pairs, "C17.gates")
 
 	// ---- C17.fieldorder
 	rule = "C17.fieldorder"
@@ -617,4 +594,32 @@ func addWildcards(a *nfa) {
 			}
 		}
 	}
+}
+
+// ruleGates: provenance of the revision operand of every Feature.In in the message codecs.
+func ruleGates(c *Ctx, p *core.Program, pairs []msgPair, rule string) {
+	cfg := p.Cfg.Name
+	c.R.Rule(rule, "provenance of gates: in every message encoder/decoder (and the library helpers they call statically), the revision operand of every Feature.In is the function's own revision parameter - never a value taken from the message being decoded (such as the peer's advertised revision) or a constant")
+	nG := 0
+	for _, mp := range pairs {
+		for _, root := range []*ssa.Function{mp.enc, mp.dec} {
+			for fn := range core.StaticReach(root, 2) {
+				if !core.IsLib(pkgOf(fn)) || pkgOf(fn).Path() != core.PkgProto {
+					continue
+				}
+				for _, call := range core.FindCalls(fn, isFeatureIn) {
+					nG++
+					arg := call.Common().Args[1]
+					key := "gate/" + mp.name + "/" + core.CallKey(fn, call)
+					if _, ok := arg.(*ssa.Parameter); ok && (fn == root || paramFedByParam(root, fn, arg.(*ssa.Parameter))) {
+						c.R.Ok(rule, key, cfg, p.Pos(call.Pos()), "gated on the revision parameter")
+					} else {
+						c.R.Bad(rule, key, cfg, p.Pos(call.Pos()), "gate is evaluated on "+orDash(core.FieldOrigin(arg, 0), arg)+" instead of the negotiated revision parameter: encoder and decoder disagree whenever that value and the negotiated revision lie on different sides of the threshold")
+					}
+				}
+			}
+		}
+	}
+	c.R.Count("gates in message codecs", nG)
+
 }
